@@ -179,6 +179,8 @@ package tacquito
 //@   ensures[C19] len(data) < 5 ==> typeOf(err) != *BadSecretErr
 //@   ensures[C19] full.AuthenContinue(data) ==> ((typeOf(err) == *BadSecretErr) == overrun.AuthenContinue(data))
 //@   taints[C18] data 3
+//@   ensures err == nil ==> a.Flags == data[4]
+//@   axiom (err == nil) == ufb("AuthenContinue.decodes", seqof(data))
 //@   ensures[C18] (taintkind(data, 2) && err == nil) ==> tainted(a.UserMessage, 2)
 //@   ensures[C18] taintkind(data, 1) ==> maytaint(err, 1)
 //@   ensures[C18] taintkind(data, 2) ==> maytaint(err, 2)
